@@ -112,6 +112,44 @@ def trait_vtable_rules(ck, rule, facts, backends):
                       "Rust `<Trait>_VTable` (which ignores backend attributes) keeps it, so every later callback slot sits one pointer earlier than Rust reads it" % (be, bad), C.loc(f, n.get("ln")))
     if nw < 1:
         ck.bad(rule, "gen_trait_def/floor/" + "+".join(sorted(backends)), "no walk over TraitDef.methods found in gen_trait_def of %s" % sorted(backends))
+    # ... and `TraitDef.methods` itself holds every method of the AST trait: lowering walks `ast::Trait.methods` without filter / continue / break (an error
+    # return aside), for the same reason -- the macro, which compiles the Rust vtable, reads the same AST list and no backend attribute
+    core = facts.core
+    lt = next(iter(core.fns_matching(r"::hir::lowering::.*::lower_trait$")), None)
+    nl = 0
+    if lt is not None:
+        for g in C.fns_inl(core, lt, 1):
+            sub = {id(C.strip(n["recv"])) for n in C.walk(C.fn_body(g)) if n.get("k") == "mcall"}
+            for n in C.walk(C.fn_body(g)):
+                walk, root, loop = None, None, None
+                if n.get("k") == "mcall" and id(n) not in sub:
+                    ch, r = [], n
+                    while isinstance(r, dict) and r.get("k") == "mcall":
+                        ch.append(r["m"])
+                        r = C.strip(r["recv"])
+                    walk, root = list(reversed(ch)), r
+                elif n.get("k") == "for":
+                    r, ch = C.strip(n["iter"]), []
+                    while isinstance(r, dict) and r.get("k") in ("mcall", "addr"):
+                        if r.get("k") == "mcall":
+                            ch.append(r["m"])
+                            r = C.strip(r["recv"])
+                        else:
+                            r = C.strip(r["e"])
+                    walk, root, loop = list(reversed(ch)), r, n
+                if not (isinstance(root, dict) and root.get("k") == "field" and root.get("n") == "methods" and "ast::traits::Trait" in (root.get("bty") or "")):
+                    continue
+                if walk in (["len"], ["is_empty"]):
+                    continue
+                nl += 1
+                bad = [m_ for m_ in walk if m_ in ("filter", "filter_map", "skip", "take", "skip_while", "take_while", "rev", "step_by", "find", "flat_map")]
+                if loop is not None:
+                    bad += [x.get("k") for x in C.walk(loop["body"]) if x.get("k") in ("continue", "break")]
+                ck.expect(not bad, rule, "hir::lower_trait/keeps-every-method#%d" % sum(1 for i in ck.instances if i["key"].startswith("hir::lower_trait/keeps-every-method")), "all methods, in order",
+                          "lowering builds `TraitDef.methods` from the AST trait's methods through %s: a method left out of the HIR trait has no slot in any generated vtable mirror while the "
+                          "Rust `<Trait>_VTable` the macro compiles keeps it, so every later callback slot is read at the wrong offset" % bad, C.loc(g, n.get("ln")))
+    if nl < 1:
+        ck.bad(rule, "hir::lower_trait/floor", "no walk over ast::Trait.methods found in lower_trait")
 
 
 def run(ck, facts):
@@ -374,6 +412,20 @@ def run(ck, facts):
         fo = re.search(r"listOf\((.*?)\)", text)
         ck.expect(bool(fo) and re.findall(r"\"([^\"]+)\"", fo.group(1)) == exp, "R2", rel + "/shape", str(exp), "record is not %s" % exp, "tool/templates/" + rel)
         ck.expect(re.search(r"var\s+isOk\s*:\s*Byte\b", text) is not None, "R2", rel + "/flag-width", "isOk: Byte", "the is_ok flag is not one byte wide", "tool/templates/" + rel)
+    # the result union has an `ok` member iff the success side has a payload and an `err` member iff the error side has one: each member is guarded by its own side only
+    rtxt = tmpl.flat_file("kotlin/Result.kt.jinja", resolve_includes=False)
+    nmem = 0
+    for side, other in (("ok", "err"), ("err", "ok")):
+        for mm in re.finditer(r"internal\s+var\s+%s\s*:" % side, rtxt):
+            nmem += 1
+            gs = tmpl.guards_at(rtxt, mm.start())
+            foreign = [g_ for g_ in gs if re.search(r"(?<![\w.])%s\s*\." % other, g_)]
+            own = [g_ for g_ in gs if re.search(r"(?<![\w.])%s\s*\." % side, g_)]
+            ck.expect(bool(own) and not foreign, "R2", "kotlin/Result.kt.jinja/union-member-%s-guarded-by-own-side" % side, "",
+                      "the `%s` member of the JNA result union is emitted under %s: it depends on the %s side, so Result<(), E> / Result<T, ()> records lose a payload Rust's union has "
+                      "(size and flag offset of the record change)" % (side, gs, other), "tool/templates/kotlin/Result.kt.jinja")
+    if nmem < 2:
+        ck.bad("R2", "kotlin/Result.kt.jinja/union-members/floor", "only %d union members found in the Kotlin result template (2 counted: ok, err)" % nmem, "tool/templates/kotlin/Result.kt.jinja")
     m = re.search(r"class Slice: Structure\(\), Structure\.ByValue \{(.*?)override fun getFieldOrder", initk, re.S)
     oksl = bool(m) and re.findall(r"@JvmField var (\w+): (\w+)", m.group(1)) == [("data", "Pointer"), ("len", "FFISizet")]
     ck.expect(oksl, "R2", "kotlin/init.kt/Slice", "data: Pointer; len: FFISizet", "JNA Slice is not {data: Pointer, len: FFISizet}", "tool/templates/kotlin/init.kt.jinja")
